@@ -7,10 +7,13 @@ CONSTANTS
   HasShuffle = TRUE
   ShuffleMode = "local"
   DropKillsIter = FALSE
+  BatchSet = {}
+  AliasBatches = FALSE
 INVARIANT PrefixAlways
 INVARIANT FullWhenDone
 INVARIANT FinishedAll
 INVARIANT ParamsStable
 INVARIANT CacheSound
+INVARIANT SavedSound
 INVARIANT Emit
 CHECK_DEADLOCK FALSE
